@@ -133,3 +133,83 @@ def gen_rw_session(rng, np_=None, nops=None, align=True, **kw):
     sess.emit('* snapshot %d' % sess.f, kind='snapshot', noframe=True)
     sess.emit('* close %d' % sess.f)
     return sess
+
+
+def gen_big_session(rng, np_=None):
+    """requests larger than NC_BYTE_SWAP_BUFFER_SIZE (4096 bytes) with non-contiguous buffer datatypes and
+    the in-place byte swap hint in all three settings: the packing / swapping decisions of put_varm
+    and get_varm depend on request size, buffer contiguity, need of conversion and need of swap"""
+    sess = Session(rng, np_=np_ or rng.choice([1, 1, 2, 3]))
+    f = sess.f
+    schema = Schema(rng, maxdims=2, maxvars=2, maxlen=6)
+    # replace the fixed dimensions by larger ones
+    schema.dims = [(n, (0 if l == 0 else rng.choice([24, 33, 40, 50]))) for n, l in schema.dims]
+    for v in schema.vars:
+        v.shape = [schema.dims[d][1] for d in v.dimids]
+        if v.nd > 2:
+            v.dimids = v.dimids[:2]; v.shape = v.shape[:2]
+        if v.xtype in (1, 2, 7):
+            v.xtype = rng.choice([3, 4, 5, 6] if schema.fmt < 5 else [3, 4, 5, 6, 8, 9, 10, 11])
+    swap = rng.choice(['auto', 'auto', 'enable', 'disable'])
+    sess.create(schema, hints=[('nc_in_place_swap', swap)])
+    sess.sync_point()
+    for _ in range(rng.range(2, 5)):
+        v = rng.choice([x for x in schema.vars if x.nd > 0] or schema.vars)
+        if v.nd == 0:
+            continue
+        # a large block: all of the fastest dimension, most of the slower one (3 records for record variables)
+        count = [(3 if (i == 0 and v.isrec) else (d if i == v.nd - 1 else max(1, d - rng.below(3)))) for i, d in enumerate(v.shape)]
+        start = [0] * v.nd
+        stride = [1] * v.nd
+        nel = 1
+        for c in count:
+            nel *= c
+        same = rng.chance(3, 4)                    # memory type = external type: no conversion, swap only
+        k = v.xtype if same else rng.choice([4, 5, 6, 10])
+        bl = count[-1]
+        cnt = nel // bl
+        lay = rng.below(3)
+        if lay == 0:
+            tok, buf = 'x%d' % k, 'v %d %d %d' % (cnt, bl, bl + rng.range(1, 5))      # ghost cells
+        elif lay == 1:
+            tok, buf = 'x%d' % k, 'c %d' % nel
+        else:
+            tok, buf = 't%d' % k, 'c'
+        seed = sess.next_seed()
+        from . import oracle as O
+        lim = O.pat_lim(k, v.xtype)
+        sess.vmax[v.vid] = max(sess.vmax.get(v.vid, 0), lim)
+        args = 'vara %d %s %s' % (v.nd, fmt_list(start), fmt_list(count))
+        def emit(who, op):
+            bspec = ('v', cnt, bl, int(buf.split()[3])) if buf.startswith('v') else ('c',)
+            return sess.emit('%s %s %d %s %d vara %s %s %s%s' % (who, op, f, 'c' if who == '*' or True else 'i', v.vid, tok, buf,
+                                                              args.split(' ', 1)[1], (' pat %d' % seed) if op == 'put' else ''),
+                             kind=op, op=op, vid=v.vid, start=start, count=count, stride=stride, memk=k, seed=seed, lim=lim,
+                             form='vara', buf=bspec, ranks=list(range(sess.np)) if who == '*' else [int(who)], mode='c',
+                             flex=tok[0] == 'x')
+        if sess.np == 1:
+            emit('*', 'put')
+        else:
+            w = rng.below(sess.np)
+            sess.emit('{')
+            for r in range(sess.np):
+                if r == w:
+                    emit(str(r), 'put')
+                else:
+                    sess.one_access('put', 'c', v, [0] * v.nd, [0] * v.nd, [1] * v.nd, who=str(r), form='vara')
+            sess.emit('}')
+        sess.note_put_numrecs(v, start, count, stride)
+        # read back through a different path: row by row, typed
+        for row in range(min(count[0], 3)):
+            st = list(start); st[0] = row
+            cn = list(count); cn[0] = 1
+            sess.one_access('get', 'c', v, st, cn, stride, forget=True, form='vara')
+        if rng.chance(1, 2):
+            emit('*', 'get')
+    sess.sync_point()
+    sess.emit('* close %d' % f)
+    sess.emit('* open %d 0' % f)
+    sess.emit('* inq %d' % f, kind='inq')
+    read_all(sess, rng)
+    sess.emit('* close %d' % f)
+    return sess
